@@ -7,7 +7,7 @@ From Oras Require Import Base.Prelude Generated.GC04 Model.CopySpec Model.CopyTo
   Proofs.CopySpec Proofs.CopyAcct Proofs.CopyOpt Proofs.CopyAbort.
 From Oras Require Import Model.CopyHold Proofs.CopyHold.
 Local Open Scope nat_scope.
-From Oras Require Model.CopyImpl Proofs.CopyImplBase Properties.C02_protocol.
+From Oras Require Model.CopyImpl Proofs.CopyImplBase Properties.C02_protocol Proofs.CopyPermitsFinal.
 
 (* at every instant (every prefix of every accepted trace) at most K source reads
    (Fetch ... Close) and at most K destination operations (Exists, Push/PushReference,
@@ -365,3 +365,26 @@ Example C04_overlay_is_tighter :
   accepts_h g_leaf c_leaf [] tr_leaf_bad = None /\
   (exists st, accepts_h g_leaf c_leaf [] tr_leaf_ok = Some st /\ returned st = Some true).
 Proof. exact overlay_is_tighter. Qed.
+
+(* ---- the limiter after the call.  On the protocol model (Model/CopyImpl.v): once the top-level
+   syncutil.Go has returned -- nil or an error, any fault, any interleaving -- every task has
+   finished, nothing is in flight and all K permits are free.  The harness reads exactly this off
+   the real semaphore after every CopyGraph call made through the verif hook (oracle: permit-leak),
+   and at every recorded event that the operations in flight are covered by the permits taken
+   (oracle: op-without-permit; the model-side statement is C04_inflight_bounded_by_permits). ---- *)
+Theorem C04_all_permits_free_at_return :
+  forall succ K ext roots, (forall n m, In m (succ n) -> m < n) ->
+  forall s, CopyImplBase.Reachable succ K ext roots s -> CopyImpl.is_final s = true ->
+    CopyImpl.free s = K /\ CopyImpl.holders s = 0 /\ CopyImpl.inflight s = 0.
+Proof. exact CopyPermitsFinal.all_permits_free_at_return. Qed.
+Print Assumptions C04_all_permits_free_at_return.
+
+(* satisfiable, on a failing run: K = 2, ExtendedCopyGraph with roots 4 and 3 over the DAG of
+   C02_protocol's examples, the first push fails; the run is reachable, final, and returns an error *)
+Example C04_all_permits_free_example :
+  let ls := snd (CopyImpl.sched C02_protocol.ex_succ CopyImpl.pick_push_fault 400 (CopyImpl.init 2 true [4; 3]) []) in
+  match CopyImpl.run C02_protocol.ex_succ (CopyImpl.init 2 true [4; 3]) ls with
+  | Some s => CopyImpl.is_final s = true /\ CopyImpl.result s = Some true /\ CopyImpl.free s = 2
+  | None => False
+  end.
+Proof. vm_compute. repeat split; reflexivity. Qed.
